@@ -242,7 +242,7 @@ func (s *supervisor) CommitSelected() (committed bool) {
 		// Reaching Selected ends the NOT-SELECTED dwell for good: a T7 expiry raised before this
 		// point is stale from now on, also after a later deselect.
 		s.commits.Add(1)
-		s.inject(evSelectAccepted)
+		s.inject(evSelectAccepted | evStamped) // stamped: the state word already shows this select
 
 		return true
 	}
@@ -349,6 +349,16 @@ func (s *supervisor) step(ev fsmEvent) {
 	// flap the FSM (spuriously Rejecting a legitimately-selected peer's next frame, the efb220b class).
 	// Same supersession rationale as the evT7Timeout CAS below.
 	if ev == evSelectLost && cur == SelectedState {
+		return
+	}
+
+	// A select event stamped by CommitSelected is enqueued only AFTER the state word showed Selected.
+	// If step now observes anything else, a later cause has already taken the session out of Selected
+	// (CommitSelectLost: the peer pipelined Deselect.req behind its Select.req; or a disconnect that
+	// was queued ahead). The event is history, not a transition to perform: storing Selected here
+	// would UNDO that committed change (State() stuck at Selected while the peer was told it is
+	// deselected). ABANDON it, like the superseded evSelectLost above.
+	if stamped && ev == evSelectAccepted && cur != SelectedState {
 		return
 	}
 
